@@ -68,3 +68,12 @@ package stdlib_contracts
 //@ func (Type).IsValid
 //@ assumed
 //@ pure
+
+// the decoded-key cache: an LRU map; its operations do not write memory the contracts talk about
+//@ package github.com/hashicorp/golang-lru/v2
+//@ func (*Cache[string, *github.com/nspcc-dev/neo-go/pkg/crypto/keys.PublicKey]).Add[string *github.com/nspcc-dev/neo-go/pkg/crypto/keys.PublicKey]
+//@ assumed
+//@ pure
+//@ func (*Cache[string, *github.com/nspcc-dev/neo-go/pkg/crypto/keys.PublicKey]).Get[string *github.com/nspcc-dev/neo-go/pkg/crypto/keys.PublicKey]
+//@ assumed
+//@ pure
